@@ -22,4 +22,5 @@ let () =
   | "emit" -> Emitdrv.run ()
   | "macro" -> Macrodrv.run ()
   | "request" -> Reqdrv.run ()
+  | "serde" -> Serdedrv.run ()
   | m -> prerr_endline ("unknown mode " ^ m); exit 2
